@@ -301,3 +301,52 @@ Theorem mutex_static_lemma :
 Proof.
   intros ocfg tcfg H fl evs t1 t2 s. apply mutex_lemma. now apply contract_static_lemma.
 Qed.
+
+(* ---------- every step is an update of one thread and one object (processes never change) ---------- *)
+
+Lemma Upd_refl s t o : Upd s s t o.
+Proof. constructor; auto. Qed.
+
+Lemma Upd_tail s s1 s' t o0 : objs s1 = objs s -> thr s1 = thr s -> dead s1 = dead s -> Tail s1 s' t o0 -> Upd s s' t o0.
+Proof. intros A B C T. eapply Upd_trans; [apply Upd_eq; eauto|apply (ta_upd _ _ _ _ T)]. Qed.
+
+Lemma step_Upd s t : exists o0, Upd s (step s t) t o0.
+Proof.
+  unfold step. destruct (negb (enabled s t)); [exists 0; apply Upd_refl|].
+  destruct (t_pc (thr s t)) as [|a dl|a|a d|a d i|a w|a oserr|o d k|o d k|o k] eqn:Hpc.
+  - destruct (t_prog (thr s t)) as [|c rest]; [exists 0; apply Upd_refl|].
+    destruct c as [o m blk tm poll skip|o force]; unfold begin_call; cbn; exists o.
+    + rewrite upd_same. cbn. destruct (normalise _ _ _). destruct (Nat.eqb _ _); constructor; thr_simpl; intros; rewrite ?upd_other by auto; auto.
+    + rewrite upd_same. cbn.
+      destruct (Nat.eqb (o_proc (objs s o)) _); cbn;
+        (destruct (o_fd (objs s o)); [|constructor; thr_simpl; intros; rewrite ?upd_other by auto; auto]);
+        destruct (own_is _ _); cbn; destruct (_ || _); cbn.
+      all: try solve [constructor; thr_simpl; intros; rewrite ?upd_other by auto; auto].
+      all: match goal with |- context [enter_tlrel ?s1 ?tt ?oo 1] =>
+             apply (Upd_trans _ s1); [|apply (ta_upd _ _ _ _ (Tail_enter_tlrel s1 tt oo 1))] end;
+           constructor; thr_simpl; intros; rewrite ?upd_other by auto; auto.
+  - exists (a_o a). cbn. destruct (tl_try _ _) as [ob'|] eqn:E; [|constructor; thr_simpl; intros; rewrite ?upd_other by auto; auto].
+    destruct (tl_try_some _ _ _ E) as (_ & _ & _ & _ & Hp & _).
+    destruct (o_fd ob'); constructor; thr_simpl; intros; rewrite ?upd_other by auto; auto.
+  - exists (a_o a). cbn. destruct (faulty s KOpen); [destruct (intr s KOpen)|].
+    + eapply Upd_tail; [| | |apply Tail_enter_cleanup]; reflexivity.
+    + eapply Upd_tail; [| | |apply Tail_after_attempt]; reflexivity.
+    + constructor; thr_simpl; intros; rewrite ?upd_other by auto; auto.
+  - exists (a_o a). cbn. destruct (faulty s KLock); [|destruct (holder_free_for _ d)]; constructor; thr_simpl; intros; rewrite ?upd_other by auto; auto.
+  - exists (a_o a). cbn. destruct (faulty s KClose || i).
+    + eapply Upd_tail; [| | |apply Tail_enter_cleanup]; rewrite ?objs_k_close, ?thr_k_close, ?dead_k_close; reflexivity.
+    + eapply Upd_tail; [| | |apply Tail_after_attempt]; rewrite ?objs_k_close, ?thr_k_close, ?dead_k_close; reflexivity.
+  - exists (a_o a). constructor; thr_simpl; intros; rewrite ?upd_other by auto; auto.
+  - exists (a_o a). constructor; thr_simpl; intros; rewrite ?upd_other by auto; auto. apply tl_release_proc.
+  - exists o. cbn. destruct (faulty s KUnlock); constructor; thr_simpl; rewrite ?objs_k_unlock, ?thr_k_unlock, ?dead_k_unlock; cbn;
+      intros; rewrite ?upd_other by auto; auto.
+  - exists o. cbn. match goal with |- context [enter_tlrel ?s1 ?tt ?oo ?kk] =>
+      apply (Upd_trans _ s1); [|apply (ta_upd _ _ _ _ (Tail_enter_tlrel s1 tt oo kk))] end. constructor; thr_simpl; rewrite ?objs_k_close, ?thr_k_close, ?dead_k_close; cbn;
+      intros; rewrite ?upd_other by auto; auto.
+  - exists o. cbn. match goal with |- context [enter_tlrel ?s1 ?tt ?oo ?kk] =>
+      apply (Upd_trans _ s1); [|apply (ta_upd _ _ _ _ (Tail_enter_tlrel s1 tt oo kk))] end. constructor; thr_simpl; intros; rewrite ?upd_other by auto; auto. apply tl_release_proc.
+Qed.
+
+Lemma step_procs s t : (forall o, o_proc (objs (step s t) o) = o_proc (objs s o)) /\ (forall t', t_proc (thr (step s t) t') = t_proc (thr s t')).
+Proof. destruct (step_Upd s t) as [o0 U]. split; intros; [eapply Upd_oproc|eapply Upd_tproc]; eauto. Qed.
+
